@@ -7,12 +7,14 @@ for d in sorted(glob.glob(os.path.join(V, "seeded", "C??_?"))):
     name = os.path.basename(d); meta_p = os.path.join(d, "meta.json"); meta = json.load(open(meta_p))
     det = []
     for ev in sorted(glob.glob(os.path.join(d, "eval_*.txt"))):
-        t = open(ev).read(); prop = os.path.basename(ev)[5:-4]
+        t = open(ev).read(); prop = os.path.basename(ev)[5:-4].replace(".partial", "")      # .partial: only the named harnesses of the check were run
         m = re.search(r"exit=(\d+)", t); rc = int(m.group(1)) if m else None
         hs = sorted(set(re.findall(r"counterexample in (\S+?):", t)))
         if rc == 1 and hs: det.append(dict(check="python3 vp/check.py %s --tier quick" % prop, harnesses=hs))
         elif rc is not None: det.append(dict(check="python3 vp/check.py %s --tier quick" % prop, harnesses=[], exit=rc))
-    hit = [x for x in det if x.get("harnesses")]
+    hit, seen = [], set()
+    for x in det:
+        if x.get("harnesses") and x["check"] not in seen: hit.append(x); seen.add(x["check"])
     meta["detected_by"] = hit if hit else None
     if not hit and "missed_because" not in meta: meta["missed_because"] = "not detected by the quick tier of the property's check (see DESIGN.md section 8)"
     if hit: meta.pop("missed_because", None)
